@@ -7,7 +7,7 @@ RULE = ("(1) generated calls of find_arg_optimal, find_optimal, optimal_cost_val
         "several kinds (matrix, python function, expression) with magnitudes small / float / beyond 2^31 / beyond "
         "2^63 (float) / +-inf / mixed / int8-int16-int32 numpy tables whose sums exceed the dtype, variables with and without own cost (dict, function, expression), min and max, "
         "all-equal tables and single-value domains; oracle = enumeration over the harness tables (sets compared as "
-        "sets, costs exactly); (2) dsa (A/B/C), adsa and dsatuto run under the deterministic scheduler: every "
+        "sets, costs exactly); (2) dsa (A/B/C), adsa and dsatuto run under the deterministic scheduler (every call of A-DSA's find_best_values is compared with the oracle set and cost): every "
         "value_selection made with a full neighbour view must pick a value of the oracle arg-best set (constraints + "
         "own cost); non-trivial = domain >= 2 and >= 2 distinct cost values (helpers) / >= 1 checked move (DSA runs); "
         "distinct by hash(call) or hash(instance, algo, schedule)")
@@ -204,6 +204,7 @@ def dsa_run(case, algo, params, sched_seed, bias=None, choices=None, budget=900)
     vm = gen.var_map(case)
     problems = []
     checked = [0]
+    helper_calls = [0]
     last_msgs = {}
     orig = VariableComputation.value_selection
 
@@ -238,6 +239,36 @@ def dsa_run(case, algo, params, sched_seed, bias=None, choices=None, budget=900)
         return orig(self, val, cost)
 
     VariableComputation.value_selection = hooked
+    helper_undo = None
+    if algo == "adsa":
+        # contract on A-DSA's own best-response helper: full arg-best set and its cost (constraints + own cost only)
+        from pydcop.algorithms.adsa import ADsaComputation
+
+        orig_fbv = ADsaComputation.find_best_values
+
+        def fbv(self, assignment):
+            got_vals, got_cost = orig_fbv(self, assignment)
+            mine = nb[self.name]
+            if set(assignment) >= mine:
+                pairs = []
+                for cand in vm[self.name]["domain"]:
+                    a = {k: assignment[k] for k in mine}
+                    a[self.name] = cand
+                    c = 0
+                    for k in case["constraints"]:
+                        if self.name in k["scope"]:
+                            c = c + gen.constraint_value(case, k, a)
+                    c += gen.var_cost(vm[self.name], cand)
+                    pairs.append((cand, c))
+                best_vals, best = argbest(pairs, case["objective"])
+                helper_calls[0] += 1
+                if set(got_vals) != set(best_vals) or not relgen.same(got_cost, best):
+                    problems.append(("find_best_values-wrong", "%s %s: %s.find_best_values(%r) == (%r, %r), oracle (%r, %r)" % (
+                        algo, case["objective"], self.name, {k: assignment[k] for k in mine}, got_vals, got_cost, best_vals, best)))
+            return got_vals, got_cost
+
+        ADsaComputation.find_best_values = fbv
+        helper_undo = (ADsaComputation, orig_fbv)
     try:
         if algo == "dsatuto":
             for c in comps:
@@ -253,7 +284,9 @@ def dsa_run(case, algo, params, sched_seed, bias=None, choices=None, budget=900)
         status = pool.run(budget)
     finally:
         VariableComputation.value_selection = orig
-    return {"status": status, "problems": problems[:4], "checked": checked[0], "trace": list(pool.trace),
+        if helper_undo:
+            helper_undo[0].find_best_values = helper_undo[1]
+    return {"status": status, "problems": problems[:4], "checked": checked[0], "helper_calls": helper_calls[0], "trace": list(pool.trace),
             "exception": pool.errors[0][1] if pool.errors else None,
             "bias": {"bias": pool.bias, "target": pool.bias_target, "late_until": pool.late_until}}
 
@@ -293,6 +326,7 @@ def worker(job):
             R.case(common.stable_hash([gen.case_sig(case), algo, params, res["trace"]]), res["checked"] >= 1,
                    sample={"case": case, "algo": algo, "params": params, "moves_checked": res["checked"]} if res["checked"] else None)
             R.count("dsa_moves_checked", res["checked"])
+            R.count("adsa_find_best_values_calls_checked", res.get("helper_calls", 0))
             R.bump("dsa_moves_checked_by_algo", algo, res["checked"])
             if res["exception"]:
                 R.bump("observation_ended_by_exception", "%s: %s" % (algo, res["exception"][:60]))
